@@ -20,6 +20,7 @@ THEOREMS = ["Pfl.LL1Lib.parse_total",
             "Pfl.RecDescent.rdMatch_of_derives",
             "Pfl.RecDescent.parse_valid",
             "Pfl.RecDescent.parse_refuses_only_nonmembers",
+            "Pfl.RecDescent.parse_no_start",
             "Pfl.LL1Lib.parse_valid",
             "Pfl.CFG.treeValid_sound",
             "Pfl.CFG.treeValid_complete",
@@ -44,7 +45,10 @@ THEOREMS = ["Pfl.LL1Lib.parse_total",
 def generate(rng, tier):
     from . import c18
     while True:
-        yield {"g": G.gen_cfg(rng, max_vars=3, max_prods=6, adversarial=False), "fg": c18.gen_fcfg(rng)}
+        g = G.gen_cfg(rng, max_vars=3, max_prods=6, adversarial=False)
+        if rng.random() < 0.03:
+            g["start"] = None             # a grammar without start symbol: every parser refuses every word
+        yield {"g": g, "fg": c18.gen_fcfg(rng)}
 
 
 def sym_json(x):
